@@ -129,11 +129,16 @@ def row_key(site, ls, cert):
 def trim(f):
     """emitted formulas keep option atoms and Settings-flag literals only: every other literal was needed to eliminate
     contradictory conjunctions (done), and dropping it from a consistent conjunction is a weakening"""
-    return G._absorb([frozenset(l for l in c if l[0] == 'o' or l[1].startswith("S.")) for c in f])
+    return G.f_or(G._absorb([frozenset(l for l in c if l[0] in ('o', 'n') or l[1].startswith("S.")) for c in f]))
 
 
 def live(c):
     return not any(l[0] == 'l' and l[2] for l in c)        # every S.* flag defaults to false
+
+
+def py_positive(f):
+    """no live conjunction tests an option for being DISABLED (mirror of Row.posOk)"""
+    return all(not live(c) or not any(l[0] == 'n' for l in c) for c in f)
 
 
 def py_entails(f, need, cli=False):
@@ -193,6 +198,8 @@ def build_table(fresh=False):
         r["gate_ok"] = need is None or py_entails(r["f"], need)
         r["gate_ok_cli"] = need is None or py_entails(r["f"], need, cli=True)
         r["inc_ok"] = r["cert"] != "inconclusive" or py_entails(r["f"], ('o', ('inc',)))
+        r["pos_ok"] = py_positive(r["f"])
+        r["dead"] = not any(live(c) for c in r["f"])
     # sites of the AST that no root reaches (only getErrorMessages calls them, or dead code)
     reached = set((r["site"][0], r["site"][1]) for r in table)
     allsites = set()
